@@ -2,6 +2,7 @@ package catalog
 
 import (
 	"encoding/json"
+	"fmt"
 	"sync"
 
 	schema "github.com/jsightapi/jsight-schema-core"
@@ -54,7 +55,15 @@ func NewExchangeJSightSchema[T bytes.ByteKeeper](
 		}
 	}
 
-	err := coreUserTypes.Each(func(k string, v schema.Schema) error {
+	err := coreUserTypes.Each(func(k string, v schema.Schema) (err error) {
+		// For a regex user type the schema library generates an example of the regular
+		// expression; the generator panics for an expression it cannot handle
+		// (/[^\x00-\x7F]/: "invalid argument to Intn") and JSchema.AddType re-throws that.
+		defer func() {
+			if r := recover(); r != nil {
+				err = fmt.Errorf("the user type %s cannot be used in a schema: %v", k, r)
+			}
+		}()
 		return es.JSchema.AddType(k, v)
 	})
 	if err != nil {
